@@ -9,6 +9,7 @@ import (
 	"context"
 	"fmt"
 	"math/big"
+	"os"
 	"sort"
 	"strings"
 	"sync"
@@ -158,7 +159,10 @@ type c07Handler struct {
 type c07Held struct {
 	typeIdx int
 	msg     *c07NetMsg
+	key     string // "sender/type/receiver"
 }
+
+var c07Trace = os.Getenv("VERIF_C07_TRACE") != ""
 
 type c07Hub struct {
 	mu        sync.Mutex
@@ -172,6 +176,36 @@ type c07Hub struct {
 	seq       uint64
 	stats     map[string]int
 	lastSend  time.Time
+	// protocol progress as the hub sees it: the highest message type every
+	// member has broadcast and which planned messages reached which member
+	sentType map[group.MemberIndex]int
+	got      map[string]bool // "sender/type/receiver" handed to the receiver
+}
+
+// canProgress tells whether some member holds everything it needs to send
+// its next message (or has not started yet): then the run is computing, not
+// stalled. Only when no member can progress are the held messages what
+// everybody waits for. Independent of how slow the machine is.
+func (h *c07Hub) canProgress() bool {
+	h.mu.Lock()
+	defer h.mu.Unlock()
+	for _, m := range h.operating {
+		k, started := h.sentType[m]
+		if !started {
+			return true
+		}
+		complete := true
+		for _, s := range h.operating {
+			if s != m && !h.got[fmt.Sprintf("%d/%d/%d", s, k, m)] {
+				complete = false
+				break
+			}
+		}
+		if complete && k < len(c07Types)-1 {
+			return true
+		}
+	}
+	return false
 }
 
 // register installs a receiver. Messages that reached the hub before the
@@ -223,6 +257,7 @@ func (h *c07Hub) releaseHeld(receiver group.MemberIndex, belowType int) {
 	for _, e := range h.held[receiver] {
 		if e.typeIdx < belowType {
 			rel = append(rel, e)
+			h.got[e.key] = true
 		} else {
 			keep = append(keep, e)
 		}
@@ -342,6 +377,9 @@ func (h *c07Hub) onSend(sender group.MemberIndex, typ string, raw []byte) {
 	ti := c07TypeIndex(typ)
 	h.mu.Lock()
 	h.lastSend = time.Now()
+	if cur, ok := h.sentType[sender]; !ok || ti > cur {
+		h.sentType[sender] = ti
+	}
 	var injects []c07Injection
 	for _, in := range h.injects {
 		if in.triggerSender == sender && (in.triggerType < 0 || in.triggerType == ti) {
@@ -378,6 +416,9 @@ func (h *c07Hub) onSend(sender group.MemberIndex, typ string, raw []byte) {
 		if r == sender {
 			action = c07Normal
 		}
+		if c07Trace {
+			fmt.Printf("C07TRACE %s send %d type%d -> %d action=%d held=%d\n", time.Now().Format("05.000"), sender, ti, r, action, len(h.held[r]))
+		}
 		switch action {
 		case c07Hold:
 			payload := c07NewOf(typ)
@@ -386,14 +427,28 @@ func (h *c07Hub) onSend(sender group.MemberIndex, typ string, raw []byte) {
 			}
 			h.mu.Lock()
 			h.seq++
-			h.held[r] = append(h.held[r], c07Held{ti, &c07NetMsg{sender: c07TransportID(fmt.Sprintf("seat-%d", sender)), pubKey: h.pubKeys[sender], payload: payload, typ: typ, seq: h.seq}})
+			h.held[r] = append(h.held[r], c07Held{ti, &c07NetMsg{sender: c07TransportID(fmt.Sprintf("seat-%d", sender)), pubKey: h.pubKeys[sender], payload: payload, typ: typ, seq: h.seq}, fmt.Sprintf("%d/%d/%d", sender, ti, r)})
 			h.stats["held"]++
 			h.mu.Unlock()
 		case c07Dup:
+			h.mu.Lock()
+			for _, e := range h.held[r] {
+				if e.typeIdx < ti {
+					// a duplicated message of a later phase reaches a member
+					// that still waits for an earlier phase
+					h.stats[fmt.Sprintf("early-duplicate:type%d", ti)]++
+					break
+				}
+			}
+			h.got[fmt.Sprintf("%d/%d/%d", sender, ti, r)] = true
+			h.mu.Unlock()
 			h.deliver(r, typ, raw, h.pubKeys[sender], fmt.Sprintf("seat-%d", sender))
 			h.deliver(r, typ, raw, h.pubKeys[sender], fmt.Sprintf("seat-%d", sender))
 			h.count("duplicated")
 		default:
+			h.mu.Lock()
+			h.got[fmt.Sprintf("%d/%d/%d", sender, ti, r)] = true
+			h.mu.Unlock()
 			h.deliver(r, typ, raw, h.pubKeys[sender], fmt.Sprintf("seat-%d", sender))
 		}
 		// a message of a later phase reached r: release what was held for r
@@ -541,6 +596,7 @@ func c07Run(c *c07Case, budget time.Duration) (*c07Outcome, error) {
 		operating: c.operating, pubKeys: pubKeys, handlers: map[group.MemberIndex][]*c07Handler{},
 		plan: c.plan, injects: c.injects, held: map[group.MemberIndex][]c07Held{}, backlog: map[group.MemberIndex][]*c07NetMsg{}, stats: map[string]int{},
 		lastSend: time.Now(),
+		sentType: map[group.MemberIndex]int{}, got: map[string]bool{},
 	}
 	ctx, cancel := context.WithTimeout(context.Background(), budget)
 	defer cancel()
@@ -590,8 +646,21 @@ loop:
 			}
 			hub.mu.Lock()
 			idle := time.Since(hub.lastSend)
+			// a stall: no member holds what it needs for its next message
+			// (decided from the protocol's progress, not from a pause, so a
+			// busy machine does not release delayed messages early). The
+			// long pause limit is only a backstop.
 			hub.mu.Unlock()
-			if idle > 400*time.Millisecond && hub.heldCount() > 0 {
+			if idle > 90*time.Second && hub.heldCount() == 0 {
+				// nothing is held back and nobody has sent anything for far
+				// longer than any computation of the protocol takes: the run
+				// is stuck; end it instead of waiting for the whole budget
+				cancel()
+			}
+			if (!hub.canProgress() || idle > 60*time.Second) && hub.heldCount() > 0 {
+				if c07Trace {
+					fmt.Printf("C07TRACE %s stall-flush idle=%v\n", time.Now().Format("05.000"), idle)
+				}
 				hub.flushAllHeld()
 				hub.count("stall-flush")
 			}
